@@ -385,6 +385,17 @@ static void usage(void)
     exit(2);
 }
 
+/* Runtime-level harnesses draw the mean preemption gap from a wide range because one run has 10^5..10^6 scheduling
+ * points; races whose window is a couple of accesses wide are then almost never preempted inside.  15% of their plans
+ * therefore ask for dense preemption (mean gap 4..63 accesses) through the plan knob sim_mean_gap.  Derived from the
+ * seed alone, so that the plan generators' own random streams are untouched. */
+static void dense_knob(const hx_harness_t *h, hx_plan_t *p, uint64_t seed)
+{
+    if (!h->fork_per_run || hx_knob(p, "sim_mean_gap", 0) != 0) return;
+    uint64_t s0 = seed ^ 0xd3715e9a9ULL, x = sim_splitmix(&s0);
+    if (x % 100 < 15) hx_set_knob(p, "sim_mean_gap", 4 + (long)((x >> 8) % 60));
+}
+
 int hx_main(int argc, char **argv, const hx_harness_t *h)
 {
     H = h;
@@ -437,6 +448,7 @@ int hx_main(int argc, char **argv, const hx_harness_t *h)
         uint64_t s0 = (uint64_t)print_plan ^ 0x5eed5eed5eedULL; hx_rng_t r = {sim_splitmix(&s0)};
         memset(&plan, 0, sizeof(plan));
         h->gen(&plan, &r);
+        dense_knob(h, &plan, (uint64_t)print_plan);
         for (int k = 0; k < nk; k++) hx_set_knob(&plan, kn[k], kv[k]);
         plan_write(stdout, &plan);
         return 0;
@@ -467,6 +479,7 @@ int hx_main(int argc, char **argv, const hx_harness_t *h)
         if (plan.text) { free(plan.text); }
         memset(&plan, 0, sizeof(plan));
         h->gen(&plan, &r);
+        dense_knob(h, &plan, seed);
         for (int k = 0; k < nk; k++) hx_set_knob(&plan, kn[k], kv[k]);
         run_one(seed, &plan, NULL, &rec, "viol");
         runs++;
